@@ -12,6 +12,8 @@ from . import builtins as BI
 
 OUT = os.path.join(os.path.dirname(os.path.dirname(os.path.abspath(__file__))), 'out')
 
+import shutil as _sh
+Z3NEW = _sh.which('z3-new') or '/opt/veriftools/pyvenv/bin/z3'
 BUDGETS = {'quick': (5000, 8, 0), 'thorough': (30000, 60, 0)}
 
 
@@ -187,14 +189,14 @@ def solve_one(job):
     name, smt2, tier, cross = job
     zt, ct, ot = BUDGETS[tier]
     res = {'name': name, 'verdict': 'unknown', 'backend': None, 'seconds': 0.0, 'model': None, 'tried': []}
-    try:
-        r, dt, model, reason = _z3_api(smt2, zt, True)
-    except Exception as e:       # parser / solver crash: treated as unknown for this back end
-        r, dt, model, reason = 'unknown', 0.0, None, 'z3 api error %r' % (e,)
+    # the z3 5.x binary with a hard process time limit (the API's soft timeout is not honoured inside some sequence
+    # solver loops: a query then hangs the check)
+    model = None
+    r, dt, err = _cli([Z3NEW, '-T:%d' % max(1, zt // 1000)], smt2, max(1, zt // 1000))
     res['tried'].append(('z3-%s' % z3.get_version_string(), r, round(dt, 3)))
     res['seconds'] += dt
     if r in ('unsat', 'sat'):
-        res.update(verdict=r, backend='z3-%s(api)' % z3.get_version_string(), model=model)
+        res.update(verdict=r, backend='z3-%s' % z3.get_version_string(), model=model)
     if r == 'unknown' or cross:
         r2, dt2, err = _cli(['/usr/bin/cvc5', '--strings-exp', '--tlimit=%d' % (ct * 1000)], smt2, ct)
         res['tried'].append(('cvc5-1.0.3', r2, round(dt2, 3)))
